@@ -855,9 +855,17 @@ class ChainContextSubstBuilder(ChainContextualBuilder):
             for sub in rule.lookups:
                 if not isinstance(sub, LigatureSubstBuilder):
                     continue
+                seqs = list(itertools.product(*glyphs))
+                # A ligature lookup tries longer component sequences first, so
+                # it can't be shared if one sequence is a prefix of another:
+                # the contextual rule that matched the shorter input would
+                # apply the longer ligature (or vice versa).
                 if all(
-                    sub.ligatures.get(seq, replacement) == replacement
-                    for seq in itertools.product(*glyphs)
+                    sub.ligatures.get(seq, replacement) == replacement for seq in seqs
+                ) and not any(
+                    k != seq and (k[: len(seq)] == seq or seq[: len(k)] == k)
+                    for k in sub.ligatures
+                    for seq in seqs
                 ):
                     res = sub
         return res
